@@ -325,6 +325,22 @@ fn c01(tier: &str) -> Vec<String> {
     v
 }
 
+fn c02(_tier: &str) -> Vec<String> {
+    let mut v = vec!["num:part=int".to_string(), "num:part=dur".to_string()];
+    for i in 0..14 {
+        v.push(format!("num:part=float:chunk={}:of=14", i));
+    }
+    v
+}
+
+fn c03(tier: &str) -> Vec<String> {
+    let mut v: Vec<String> = (0..24).map(|r| format!("calls:part=single:row={}", r)).collect();
+    for i in 0..30 {
+        v.push(format!("calls:part=seq:tier={}:chunk={}:of=30", tier, i));
+    }
+    v
+}
+
 fn c04(tier: &str) -> Vec<String> {
     (0..24).map(|row| format!("fmt04:row={}:tier={}", row, tier)).collect()
 }
@@ -333,6 +349,8 @@ pub fn instances(prop: &str, tier: &str) -> Vec<String> {
     let q = |v: Vec<String>| v.into_iter().map(|s| bounded(s, tier)).collect::<Vec<_>>();
     match prop {
         "C01" => c01(tier),
+        "C02" => c02(tier),
+        "C03" => c03(tier),
         "C04" => c04(tier),
         "C08" => q(c08(tier)),
         "C09" => q(c09(tier)),
